@@ -35,6 +35,8 @@ ASSUME = [
     'judged; a stop task set after that task succeeded is not judged',
     'commands still running when the scheduler blocks waiting for its '
     'process pool at shutdown complete normally during that wait',
+    'a stall caused by an incomplete task beyond the stop point (recorded '
+    'finding) is judged in the workflow prev-f2:stop-point-1:fail only',
 ]
 
 
@@ -45,7 +47,12 @@ def catalogue(tier: str):
     task = lambda t: ('stop', {'mode': None, 'task': t})             # noqa
     rows = [
         # name, sections, fcp, operator commands, extra spec, failing tasks
-        ('prev-f2:stop-point-1', P1(shapes['prev']), 2, [cp(1)], {}, ('a',)),
+        # (the only workflow in which a stall on an incomplete task beyond
+        # the stop point is judged: a recorded finding)
+        ('prev-f2:stop-point-1:fail', P1(shapes['prev']), 2, [cp(1)],
+         {'judge_stall_beyond_stop_point': True, 'restarts': 0,
+          'stops': ()}, ('a',)),
+        ('prev-f2:stop-point-1', P1(shapes['prev']), 2, [cp(1)], {}, ()),
         ('prev-f3:stopcp-option-2', P1(shapes['prev']), 3, [],
          {'options': {'stopcp': '2'}, 'stop': 2}, ()),
         ('chain2-f1:stop-task-a', P1(shapes['chain2']), 1, [task('1/a')],
